@@ -7,6 +7,7 @@ C17.slot    argc sits at the address a hardware POP would read (RSP), and RSP / 
 C17.space   the frame starts at the top of the allocated area: the space below RSP is the requested length (affine check)
 C17.retry   an occupied candidate address never aborts the initialisation: the error of creating the stack area is not
             returned to the caller (the search goes on), unless the very same (start, size) range was probed before
+C17.search  the searches for the string areas and the stack area return their error only after a probe (C10.search)
 C17.plain   init_stack: aligned RSP inside the new area; stack_top = RSP + the RET sentinel offset
 Declined: success for every list length (value-dependent), parity reasoning about the alignment assertion.
 """
@@ -37,6 +38,21 @@ def strip_align(t):
 def run(ctx):
     program_start(ctx)
     plain(ctx)
+    search(ctx)
+
+
+def search(ctx):
+    """C17.search: neither the placement of the argument strings nor that of the stack area gives up before it has
+    probed the address space, unless on conditions over its own parameters only (decided by C10's search analysis)"""
+    from . import C10
+    facts = ctx.facts
+    for nme in ("mem_init_anywhere", "init_stack", "init_stack_program_start"):
+        try:
+            b = program_start_body(facts) if nme == "init_stack_program_start" else facts.method(AXE, nme)
+        except KeyError as e:
+            ctx.check.violation("C17.search", "api=" + nme, str(e))
+            continue
+        C10.search_probe(ctx, b, nme, rule="C17.search")
 
 
 def program_start_body(facts):
